@@ -424,6 +424,9 @@ func c08Run(c *core.Ctx) {
 }
 
 func c08Replay(c *core.Ctx, payload json.RawMessage) {
+	if c08DialectReplay(c, payload) {
+		return
+	}
 	var cp c08CancelPayload
 	if json.Unmarshal(payload, &cp) == nil && cp.Family == "cancel" {
 		fmt.Printf("replaying %q with the cancellation visible from poll %d on\n", cp.SQL, cp.K)
